@@ -5,7 +5,7 @@ import ast
 from typing import List, Optional, Set
 
 from ..guards import norm, call_name
-from ..model import AnalysisError
+from ..model import AnalysisError, walk_function
 from . import shared as S
 from .shared import fn, fn_of
 from . import helpers_rules as H
@@ -899,4 +899,39 @@ def r16_8_conversion_errors(ctx, rid='R16.8'):
                     '%s compares with get_value(), which raises ValueError for an explicitly tagged scalar whose text is not a number '
                     '(`x: !!int abc`, `x: !!float abc`): the helper leaves with ValueError instead of RecognitionError / a normal return, '
                     'and from inside a _yatiml_recognize hook that ValueError escapes the load function' % name)
+    r.done()
+
+
+def r03_15_tag_class_direction(ctx, rid='R03.15'):
+    """A class named by the document's tag may stand in for the expected type only if it *is a kind of* it.  Wherever the
+    recogniser relates a tag-derived class to an expected / member type with issubclass, the tag-derived class is the first argument:
+    the other way round a tag naming a *base* class of what is expected is accepted and an object of the base class is built."""
+    P = ctx.P
+    r = ctx.rule(rid, 'issubclass(<class named by the node\'s tag>, <expected type>) - never the other way round', floor=0)
+    n = 0
+    for fi in P.yatiml_functions():
+        if fi.module.name not in ('yatiml.recognizer', 'yatiml.loader'):
+            continue
+        f = None
+        for c in walk_function(fi.node):
+            if not (isinstance(c, ast.Call) and isinstance(c.func, ast.Name) and c.func.id == 'issubclass' and len(c.args) == 2):
+                continue
+            f = f or fn_of(fi)
+
+            def from_tag(e):
+                t = f.alpha.text(e)
+                if '.tag' in t and 'registered_classes' in t:
+                    return True
+                if isinstance(e, ast.Name):
+                    return any('.tag' in norm(v) and 'registered_classes' in norm(v) for v in S.assigned_from(f, e.id))
+                return False
+            a, b = c.args
+            if from_tag(a) or from_tag(b):
+                n += 1
+                r.check(from_tag(a) and not from_tag(b), '%s: %s asks whether the tagged class is a kind of the expected one' % (fi.qual, norm(c)[:50]),
+                        f.key('tag-class-direction:%s' % f.alpha.text(b)[:40]), f.loc(c),
+                        '%s asks whether the *expected* type is a subclass of the class named by the tag: a tag that names a base class of '
+                        'the expected type passes, and an object of the base class is constructed where the derived class was declared'
+                        % norm(c)[:60])
+    r.ok('%d comparisons of a tag-derived class with an expected type' % n)
     r.done()
